@@ -81,6 +81,7 @@ def build(tier, seed):
     tasks = [Task(f"{PROP}.S.ordering", PROP, "unordered iteration", _with_replay(ordering.obligations)), Task(f"{PROP}.A.lt", PROP, "__lt__", lambda: ordering.lt_contracts(PROP)),
              Task(f"{PROP}.S.structural", PROP, "toposort / writeout / allocation", _with_replay(ordering.structural)),
              Task(f"{PROP}.S.templates", PROP, "template loops over sets", _templates),
+             Task(f"{PROP}.S.workers", PROP, "GraphManager.output_graphs", lambda: ordering.serial_parallel_agreement(PROP)),
              Task(f"{PROP}.S.stale_output", PROP, "output directory excluded from discovery", lambda: __import__("contracts.confine", fromlist=["x"]).output_dir_excluded(PROP, lambda: __import__("bounded.c12", fromlist=["x"]).rerun_cases())),
              bounded_task(), rerun_task(), pages_task()]
     meta = {
